@@ -482,11 +482,11 @@ def doctrans_work_replay(depth, width, style, type_annotations, times=1):
 import os  # noqa: E402
 
 for _st in range(3):
-    ob("C11", "work.doctrans.nest.%s" % ("rest", "google", "numpydoc")[_st], {"depth": R(1, 7), "width": R(0, 1), "style": R(_st, _st), "type_annotations": BOOL, "times": R(1, 1)}, T=1500, tpath=120,
+    ob("C11", "work.doctrans.nest.%s" % ("rest", "google", "numpydoc")[_st], {"depth": R(1, 7), "width": R(0, 1), "style": R(_st, _st), "type_annotations": BOOL, "times": R(1, 1)}, enum=True, T=1500, tpath=120,
        funcs=["cdd.compound.doctrans.doctrans", "cdd.compound.doctrans_utils.DocTrans", "cdd.compound.doctrans_utils.doctransify_cst", "cdd.shared.ast_cst_utils.*"],
        assumes=["work measure: activations of the functions and methods defined in cdd.compound.doctrans_utils and cdd.shared.ast_cst_utils (counting wrappers installed at check time); "
                 "'proportional to the size of the input' is asserted as activations <= %d * (AST nodes of the input) + 32 (the unchanged tree needs < 1 per node)" % WORK_FACTOR],
        bound="doctrans on generated modules: documented functions nested 1..7 deep plus 0..1 sibling functions, target style %s, --type-annotations on/off (solver-enumerated); "
              "thorough: applied 2..3 times to its own output" % ("rest", "google", "numpydoc")[_st])(doctrans_work)
-ob("C11", "work.doctrans.nest.again", {"depth": R(1, 7), "width": R(0, 1), "style": R(0, 2), "type_annotations": BOOL, "times": R(2, 3)}, T=3000, tpath=200, tier="thorough",
+ob("C11", "work.doctrans.nest.again", {"depth": R(1, 7), "width": R(0, 1), "style": R(0, 2), "type_annotations": BOOL, "times": R(2, 3)}, enum=True, T=3000, tpath=200, tier="thorough",
    funcs=["cdd.compound.doctrans.doctrans"], bound="as work.doctrans.nest, doctrans applied 2..3 times to its own output")(doctrans_work)
